@@ -179,7 +179,7 @@ def likely_cached_before(ops, idx):
 def fault_kinds_for(kd):
     kinds = []
     if kd["scheme"] == "sim":
-        kinds += ["NOTFOUND", "ERR_BEFORE", "ERR_MID", "ERR_AFTER"]
+        kinds += ["NOTFOUND", "ERR_BEFORE", "ERR_MID", "ERR_AFTER", "RET_FALSE_BEFORE", "RET_FALSE_MID"]
     elif kd["scheme"] == "https":
         kinds += ["HTTP_404", "HTTP_5XX", "CONN_ERR", "TIMEOUT"]
     kinds += ["EIO", "ENOSPC", "SHORT_WRITE", "EMFILE", "RENAME_EIO"]
@@ -229,7 +229,7 @@ def gen_faults(rng, knobs, ops):
 
 def make_fault(rng, op_id, kind, key):
     f = {"op": op_id, "kind": kind, "key": key}
-    if kind == "ERR_MID":
+    if kind in ("ERR_MID", "RET_FALSE_MID"):
         f["k"] = rng.choice([0, 1, 1, 2, 5])
     if kind in ("EIO", "ENOSPC", "SHORT_WRITE"):
         f["nth"] = rng.choice([0, 0, 1, 2])
